@@ -151,6 +151,7 @@ def generate(rng, tier="quick"):
         cfg = gen_cfg(rng, worlds[windex[i]], 0.3 if faulty else 0.0)
         if i in shared:
             cfg["base_mode"] = actors[0]["cfg"]["base_mode"]
+            cfg["share_format_checker"] = rng.random() < 0.5
         actors.append({"world": windex[i], "cfg": cfg, "program": gen_program(rng, base, sites, faulty, tier),
                        "share_root_with": 0 if i in shared else None})
     if mode == "coop":
